@@ -37,7 +37,7 @@ CHECKS = {
             'All programs of <=3 lines over 6 line shapes in both framings: every proper non-empty prefix in a fresh '
             'process, every single-byte corruption of every framing byte classified by a reference framing parser, every '
             'unassigned token per dialect, and all sequences of 1..4 input files in one process (history) compared with '
-            'each file alone and with the real CLI.',
+            'each file alone and with the real CLI; every prefix also through the real binary as named file, stdin from a file and stdin from a pipe.',
             'Reference framing parser lib/basic_ref.parse_program from doc/bbcbasic.5; cases the documentation leaves open '
             'are outside the domain.',
             'bounded-exhaustive enumeration of inputs x file histories against a reference parser'),
@@ -54,7 +54,7 @@ CHECKS = {
     'C11': ('fault_enumeration', '4 C11',
             'Every command of both tools x every offset N (quick: boundary-dense subset; thorough: every N) at which a '
             'regular-file stdout starts refusing writes (RLIMIT_FSIZE), every per-file limit for files created by '
-            'extract-files/extract-unused, plus /dev/full, closed pipes (SIGPIPE ignored/default) and bad destinations; '
+            'extract-files/extract-unused (large files and discs of tiny files whose .inf sidecars are the largest outputs), plus /dev/full, closed pipes (SIGPIPE ignored/default) and bad destinations; '
             'oracle: fewer bytes accepted than the fault-free output implies non-zero exit and a diagnostic.',
             'Kernel RLIMIT_FSIZE semantics; pipe failures at arbitrary offsets are not injected (only offset 0).',
             'exhaustive fault-point enumeration (write refusal at every output offset) on the real binaries'),
@@ -87,7 +87,8 @@ CHECKS = {
             'rotations x coprime interleave steps for 10/16/18, a 4^4 grid of gap1/gap2/gap3/sync lengths, padded/unpadded '
             'tracks, and one HFEv3 opcode (NOP/SETINDEX/SETBITRATE) at every stream byte position; every command must give '
             'identical stdout/exit/extracted files on both.',
-            'SKIPBITS/RAND opcodes are not generated (specification unavailable offline); encoders lib/flux.py.',
+            'SKIPBITS generated per the HxC reading stated in DESIGN.md section 8 (no specification offline); also one-side-unformatted images and '
+            'writer-chosen file layouts (track list position, record flush with the end of the track); encoders lib/flux.py.',
             'bounded-exhaustive differential exploration (flux image vs sector dump of the same disc)'),
     'C04': ('exploration', '4 C04',
             'Image files whose every sector carries its own file offset: container (ssd/sdd one- and two-sided, dsd/ddd, mmb) x '
